@@ -114,8 +114,8 @@ def marked_ever_labels(cqm, ctx_marks):
 
 def apply_op(cqm, op, ctx, marks):
     """run one op; returns the model the history continues on. `marks` is the set of
-    constraint labels that ever carried a discrete mark (over-approximation used only to
-    classify histories that touch the documented-vs-actual discrete-mark rules)."""
+    constraint labels that ever carried a discrete mark (over-approximation used only for the
+    coverage statistic `touches_repaired_region`)."""
     k = op[0]
     ctx.mstep = None
     if k == "add_var":
@@ -197,6 +197,7 @@ def apply_op(cqm, op, ctx, marks):
         m = build_model(desc)
         src = raw_of_model(m)
         mvars = list(m.variables)
+        m_before = m.copy()
         kw = {} if weight is None else dict(weight=float(F(weight)), penalty=penalty)
         ncon = cqm.num_constraints()
         try:
@@ -210,7 +211,13 @@ def apply_op(cqm, op, ctx, marks):
                 ctx.fail = "add_constraint returned a different label"
         finally:
             if not cp and cqm.num_constraints() == ncon + 1:
-                check_moved_from(m, ctx)
+                if isinstance(m, dimod.BinaryQuadraticModel) and m.dtype == object:
+                    # an object-dtype model is first converted to the CQM's dtype; the temporary is what
+                    # gets moved, the caller's model must then be left exactly as it was
+                    if not m.is_equal(m_before) or list(m.variables) != list(m_before.variables):
+                        ctx.fail = "the object-dtype source of add_constraint(copy=False) was modified"
+                else:
+                    check_moved_from(m, ctx)
                 if not (isinstance(m, dimod.BinaryQuadraticModel) and m.dtype != np.float64):
                     ctx.mstep = {"kind": ["move", ncon + 1, [cqm.variables.index(v) for v in mvars]],
                                  "n": cqm.num_variables(), "before": [src], "only": ncon + 1}
@@ -559,7 +566,7 @@ def gen_op(rng, cqm):
             lb = ub = None
         return ["add_vars", vt, ls, lb, ub]
     if k == "remove_var":
-        if not nv or (len(cqm.discrete) and rng.random() < 0.85):
+        if not nv:
             return None
         return ["remove_var", pick_var(rng, cqm)]
     if k == "fix_var":
@@ -608,8 +615,6 @@ def gen_op(rng, cqm):
             return None
         w, pen = rand_soft(rng)
         d = rand_desc(rng, cqm)
-        if d.get("bqm") == "obj" and rng.random() < 0.7:
-            d["bqm"] = "f64"
         return ["add_con_model", d, rng.choice(SENSES), dy(rng), fresh_con(rng, cqm),
                 rng.random() < 0.5, w, pen, rng.choice(["model", "model", "comparison", "generic"])]
     if k == "add_con_iter":
@@ -637,8 +642,6 @@ def gen_op(rng, cqm):
         if nc >= MAXC and rng.random() < 0.9:
             return None
         d = rand_desc(rng, cqm, binary_only=True, ones=True)
-        if d.get("bqm") == "obj":
-            d["bqm"] = "f64"
         return ["add_discrete_model", d, fresh_con(rng, cqm), rng.random() < 0.5, rng.random() < 0.85,
                 rng.choice(["model", "comparison"])]
     if k == "set_weight":
@@ -697,7 +700,7 @@ def gen_op(rng, cqm):
             u, v = pv(0.4), pv(0.4)
             bad = lambda x: x in cqm.variables and (cqm.vartype(x) is dimod.REAL or
                                                     (u == v and cqm.vartype(x) in (dimod.BINARY, dimod.SPIN)))
-            if (bad(u) or bad(v)) and rng.random() < 0.8:
+            if (bad(u) or bad(v)) and rng.random() < 0.5:     # rejected calls are the less interesting half
                 return None
             return [k, t, u, v, '0' if rng.random() < 0.1 else dy(rng)]
         if k == "v_remove_variable":
@@ -743,7 +746,7 @@ def gen_case(rng, tier):
         for l in VAR_POOL + ['p', 'q', 'r', 9, 'zz']:
             s.append([l, str(rng.choice([0, 1, -1, 2, 3, Fraction(1, 2), -2]))])
         samples.append(s)
-    return {"mode": "spec" if rng.random() < 0.25 else "code", "ops": ops, "samples": samples}
+    return {"ops": ops, "samples": samples}
 
 
 def run_quiet(cqm, op, marks):
@@ -765,8 +768,6 @@ class R:
     def __init__(self):
         self.T = LabelTable()
         self.TC = LabelTable()
-        self.code_mode = True
-        self.label_exists = lambda l: False
 
     def v(self, l):
         return cnat(self.T.idx(l))
@@ -841,10 +842,6 @@ class R:
         if k == "set_obj_iter":
             return f"(SetObjIter {self.terms(op[1])})"
         if k == "add_con_model":
-            if op[1].get("bqm") == "obj" and self.code_mode and not self.label_exists(op[4]):
-                # constrained.py re-wraps an object-dtype BQM without changing its dtype; the typed
-                # Cython entry point then rejects it with TypeError
-                return "(Fails XType)"
             return (f"(AddConModel {self.desc(op[1])} {SENSE_C[op[2]]} {cq(F(op[3]))} {self.c(op[4])} "
                     f"{self.soft(op[6], op[7])})")
         if k == "add_con_iter":
@@ -938,10 +935,9 @@ def run_case(case):
     cqm = dimod.ConstrainedQuadraticModel()
     marks = set()
     rd = R()
-    rd.code_mode = case["mode"] == "code"
     steps, msteps = [], []
     py_fail = None
-    feats = {"mode": case["mode"]}
+    feats = {}
     hazards = []
     frozen = []
     kinds = set()
@@ -949,10 +945,6 @@ def run_case(case):
     for op in case["ops"]:
         ctx = Ctx()
         exc = None
-        had = set(cqm.constraints)
-        rd.label_exists = lambda l: l in had
-        if op[0] == "add_con_model" and op[1].get("bqm") == "obj" and op[4] not in had:
-            hazards.append("object_bqm_constraint")
         try:
             cqm2 = apply_op(cqm, op, ctx, marks)
         except Exception as e:  # noqa
@@ -966,9 +958,7 @@ def run_case(case):
                 raise exc
         d = dump(cqm2)
         py_fail = py_fail or ctx.fail or d["bad"]
-        if isinstance(exc, IndexError) and op[0] == "v_add_quadratic":
-            hazards.append("view_quadratic_index_error")
-        elif bucket(exc) == "XOther":
+        if bucket(exc) == "XOther":
             py_fail = py_fail or f"unexpected exception class {type(exc).__name__}: {exc} in {op[0]}"
         steps.append(f"({rd.op(op)}, {bucket(exc)}, {rd.snap(d)})")
         if ctx.mstep is not None and (exc is None or ctx.mstep["kind"][0] == "move"):
@@ -1005,10 +995,10 @@ def run_case(case):
             if en is not None:
                 sm = clist([cpair(rd.v(v), cq(F(x))) for v, x in sample.items()])
                 energy.append(f"({coq_obs(gen.observe(e), rd.T)}, {sm}, {cq(F(en))})")
-    if case["mode"] == "spec" and hazards:
-        feats["hazard"] = hazards[0]
+    # regions where defects were found and repaired (kept as a coverage statistic only)
+    feats["touches_repaired_region"] = bool(hazards)
     n = len(rd.T)
-    coq = (f"(mkCase {cnat(n)} {cbool(case['mode'] == 'code')} {clist(steps)} {clist(msteps)} {clist(energy)})")
+    coq = f"(mkCase {cnat(n)} {clist(steps)} {clist(msteps)} {clist(energy)})"
     return {"coq": coq, "check_fn": "check", "py_fail": py_fail, "features": feats,
             "nontrivial": len(case["ops"]) >= 2 and len(kinds) >= 2,
             "observed": {"final": dump(cqm), "raised": raised, "hazards": hazards}}
